@@ -177,6 +177,8 @@ def run(chk):
                             dict(bc='dirichlet', m_u=3, bc_dim=slice(0, 2))]
                 if thorough:
                     variants += [dict(bc='dirichlet', d=1), dict(bc='von neumann', d=1), dict(bc='von neumann', m_u=2, bc_dim=slice(1, 2))]
+            if term in ('norm', 'dyn', 'ic'):
+                variants += [dict(d=1), dict(d=3)]          # the grid of a separable network has one axis per coordinate
             for var in variants:
                 cfg = {"loss": eq_type, "term": term, **{k: str(v) for k, v in var.items()}}
 
